@@ -22,6 +22,7 @@
 (*                            hands out -- see QuirkTracerCache)           *)
 (*       cache                includeTracers: includer file -> trace       *)
 (*       opened               paths handed to the OS, in order             *)
+(*       cyc                  <<>> or the INCLUDE that closed a cycle       *)
 (*       res, err             "run" | "ok" | "err";  err = [cls, f, i,     *)
 (*                            trace, qtrace]                               *)
 (*       steps ]              tokens processed (termination measure)       *)
@@ -49,7 +50,7 @@ ExplDepthFrom(T, c) == IF c = 0 THEN 0
 ExplDepth(T) == ExplDepthFrom(T, T.ctx)
 
 InitInc == [cur |-> [f |-> RootFile, i |-> 1], stack |-> <<>>, T |-> EmptyTree, cache |-> <<>>,
-            opened |-> <<>>, res |-> "run",
+            opened |-> <<>>, cyc |-> <<>>, res |-> "run",
             err |-> [cls |-> "", f |-> "", i |-> 0, trace |-> <<>>, qtrace |-> <<>>], steps |-> 0]
 
 IErr(S, cls, f, i, tr, qtr) == [S EXCEPT !.res = "err", !.err = [cls |-> cls, f |-> f, i |-> i, trace |-> tr, qtrace |-> qtr]]
@@ -102,7 +103,10 @@ IncStep(S, content) ==
             IF r.cls \in {"empty", "abs", "dots", "backslash"} THEN LiveErr(S1, "badname")     \* refused before the file system is consulted
             ELSE LET S2 == [S1 EXCEPT !.opened = Append(@, r.path)] IN                          \* os.Stat
                  IF r.cls \in {"isdir", "notexist"} THEN LiveErr(S2, r.cls)
-                 ELSE LET S3 == [S2 EXCEPT !.opened = Append(@, r.path)] IN                     \* os.ReadFile
+                 ELSE LET S3 == [S2 EXCEPT !.opened = Append(@, r.path),                        \* os.ReadFile
+                                           \* the INCLUDE that closes a cycle (its target is the current file or an includer): this is
+                                           \* where the property wants the recursion error; the code notices the cycle one lap later
+                                           !.cyc = IF @ = <<>> /\ (r.file = S.cur.f \/ OnStack(S, r.file)) THEN <<[f |-> S.cur.f, i |-> S.cur.i]>> ELSE @] IN
                       IF OnStack(S, S.cur.f) THEN LiveErr(S3, "recursion")
                       ELSE [S3 EXCEPT !.stack = Append(@, [f |-> S.cur.f, i |-> S.cur.i, depth |-> ExplDepth(S.T)]),
                                       !.cur = [f |-> r.file, i |-> 1]]
